@@ -514,10 +514,8 @@ void NifFile::SortGraph(NiNode* root, SortState& sortState) {
 	std::vector<uint32_t> childIndices;
 	root->childRefs.GetIndices(childIndices);
 
-	if (childIndices.empty())
-		return;
-
-	bool reorderChildRefs = !root->HasType<BSOrderedNode>();
+	// Nodes without children still have other references (effects, ...) that are sorted below
+	bool reorderChildRefs = !childIndices.empty() && !root->HasType<BSOrderedNode>();
 	if (reorderChildRefs) {
 		std::vector<uint32_t> newChildIndices;
 		newChildIndices.reserve(childIndices.size());
@@ -530,10 +528,10 @@ void NifFile::SortGraph(NiNode* root, SortState& sortState) {
 			// 2. Shapes
 			// 3. other
 
-			// Add nodes with children
+			// Add nodes with children (empty child refs don't count, they are dropped when writing)
 			for (auto& index : childIndices) {
 				auto node = hdr.GetBlock<NiNode>(index);
-				if (node && node->childRefs.GetSize() > 0) {
+				if (node && std::any_of(node->childRefs.begin(), node->childRefs.end(), [](auto& c) { return !c.IsEmpty(); })) {
 					newChildIndices.push_back(index);
 					newChildRefs.AddBlockRef(index);
 				}
